@@ -94,13 +94,14 @@ func (s *inst) Enabled() []op {
 
 func (s *inst) data() []int {
 	var out []int
-	for i := 0; ; i++ {
+	for i := 0; i < s.q.Len()+2; i++ { // bounded: a Peek that never says "no" must not hang the harness
 		v, ok := s.q.Peek(i)
 		if !ok {
 			return out
 		}
 		out = append(out, v)
 	}
+	return out
 }
 
 func (s *inst) Key() string {
